@@ -11,7 +11,7 @@ import (
 // TestBed is a small bridge with characteristics of every kind the wire-level checks need.
 type TestBed struct {
 	Bridge *accessory.Bridge
-	Bulb   *accessory.Lightbulb // On (bool, pr pw ev), Brightness (int32 0..100), Hue/Saturation floats
+	Bulb   *accessory.ColoredLightbulb // On (bool, pr pw ev), Brightness (int32 0..100), Hue/Saturation floats
 	Thermo *accessory.Thermostat
 	Extra  *service.Service
 	Text   *characteristic.ConfiguredName     // string, pr pw ev
@@ -25,7 +25,7 @@ type TestBed struct {
 func NewTestBed(name string, nSwitches int) *TestBed {
 	tb := &TestBed{}
 	tb.Bridge = accessory.NewBridge(accessory.Info{Name: name, SerialNumber: "SN-1", Manufacturer: "verif", Model: "bridge", FirmwareRevision: "1.0"})
-	tb.Bulb = accessory.NewLightbulb(accessory.Info{Name: name + " bulb"})
+	tb.Bulb = accessory.NewColoredLightbulb(accessory.Info{Name: name + " bulb"})
 	tb.Thermo = accessory.NewThermostat(accessory.Info{Name: name + " thermo"}, 20, 10, 35, 0.5)
 	tb.Extra = service.New("E863F007-079E-48FF-8F27-9C2605A29F52")
 	tb.Text = characteristic.NewConfiguredName()
